@@ -177,3 +177,61 @@ Theorem ident_lookup_exact : forall c E free k,
   ~ In k free -> fv_memq k (c_fv c) = None -> ident_cell c E free k = env_cell E k.
 Proof. exact ident_lookup_exact_proof. Qed.
 Print Assumptions ident_lookup_exact.
+
+(** ---- round 3: auxiliary-syntax literals under other names; importers of every kind ---- *)
+From Coq Require Import Arith Bool.
+From ChibiV Require Import C14.IdEq C14.IdEqProofs C14.Importers C14.ImportersProofs.
+
+Theorem same_cell_identifier_eq : forall plain e1 a e2 b c,
+  env_cell e1 a = Some c -> env_cell e2 b = Some c -> identifier_eq plain e1 a e2 b = true.
+Proof. exact same_cell_identifier_eq_proof. Qed.
+Print Assumptions same_cell_identifier_eq.
+
+Theorem different_names_need_one_cell : forall plain e1 a e2 b,
+  a <> b -> identifier_eq plain e1 a e2 b = true ->
+  exists c, env_cell e1 a = Some c /\ env_cell e2 b = Some c.
+Proof. exact different_names_need_one_cell_proof. Qed.
+Print Assumptions different_names_need_one_cell.
+
+Theorem keyword_identifier_eq_exact : forall plain e1 a e2 b c2,
+  env_cell e2 b = Some c2 -> plain c2 = false ->
+  identifier_eq plain e1 a e2 b = match env_cell e1 a with Some c1 => Nat.eqb c1 c2 | None => false end.
+Proof. exact keyword_identifier_eq_exact_proof. Qed.
+Print Assumptions keyword_identifier_eq_exact.
+
+Theorem renamed_import_is_the_keyword : forall plain to from ids immutp n m c,
+  to <> nil -> In (n, m) ids -> (forall m', In (n, m') ids -> m' = m) -> env_cell from m = Some c ->
+  identifier_eq plain (env_import to from (Some ids) immutp) n from m = true /\
+  (forall e2 b c2, env_cell e2 b = Some c2 -> plain c2 = false ->
+     identifier_eq plain (env_import to from (Some ids) immutp) n e2 b = Nat.eqb c c2).
+Proof. exact renamed_import_is_the_keyword_proof. Qed.
+Print Assumptions renamed_import_is_the_keyword.
+
+Theorem identifier_eq_beyond_same_binding : forall plain e1 a e2 b,
+  identifier_eq plain e1 a e2 b = true -> same_binding e1 a e2 b = false ->
+  a = b /\ (forall c, env_cell e1 a = Some c -> plain c = true) /\ (forall c, env_cell e2 b = Some c -> plain c = true).
+Proof. exact identifier_eq_beyond_same_binding_proof. Qed.
+Print Assumptions identifier_eq_beyond_same_binding.
+
+Theorem load_once_any_importer : forall d fuel (reqs : list request) l,
+  body_evals (table_state (fst (run fuel d boot reqs))) l <= 1.
+Proof. exact load_once_any_importer_proof. Qed.
+Print Assumptions load_once_any_importer.
+
+Theorem one_instance_any_importer : forall d fuel (reqs1 reqs2 : list request) l e,
+  let w1 := fst (run fuel d boot reqs1) in
+  env_of (table_state w1) l = Some e ->
+  env_of (table_state (fst (run fuel d w1 reqs2))) l = Some e.
+Proof. exact one_instance_any_importer_proof. Qed.
+Print Assumptions one_instance_any_importer.
+
+Theorem second_standard_env_keeps_table : forall w st,
+  w_meta w = Some st -> w_meta (load_standard_env w) = Some st.
+Proof. exact second_standard_env_keeps_table_proof. Qed.
+Print Assumptions second_standard_env_keeps_table.
+
+Theorem importer_kind_irrelevant : forall d fuel (reqs : list request),
+  snd (run fuel d boot reqs) = map fst (snd (run_history fuel d init_state (map snd reqs))) /\
+  table_state (fst (run fuel d boot reqs)) = fst (run_history fuel d init_state (map snd reqs)).
+Proof. exact importer_kind_irrelevant_proof. Qed.
+Print Assumptions importer_kind_irrelevant.
